@@ -7,7 +7,7 @@ rsync -a --exclude .git --exclude /sipproxy /repo/ "$S/repo/"
 (cd "$S/repo" && patch -s -p1 -i "$D/patch.diff") || exit 2
 VERIF_REPO="$S/repo" VERIF_OUT="$S/out" $V/bin/check "$ID" quick > "$S/run.log" 2>&1
 n=0
-for f in $(ls "$S"/out/replays/$ID/*.json 2>/dev/null | head -3); do
+for f in $(grep -L '"tracked_finding": true' "$S"/out/replays/$ID/*.json 2>/dev/null | head -3); do
   n=$((n+1))
   VERIF_REPO="$S/repo" VERIF_OUT="$S/out2" $V/bin/check --replay "$f" > "$S/rep.log" 2>&1; rc=$?
   echo "$(basename $D) $ID replay $(basename $f | cut -c1-70): exit=$rc $(grep -E 'REPLAY|VIOLATION|HARNESS|reproduced|not reproduced' $S/rep.log | head -2 | cut -c1-160 | tr '\n' ' ')"
